@@ -195,7 +195,7 @@ fn diff_case(ch: &mut Choices<'_>, st: &mut Stats) -> CaseResult {
     // scheme JSON
     st.eval();
     let sj = take_string(ffi::wirefilter_serialize_scheme_to_json(&cs)).map_err(|e| Fail::new("c-api-serialize-scheme", e, case.clone()))?;
-    if sj != serde_json::to_string(rs).unwrap() {
+    if sj != serde_json::to_string(rs).unwrap() || sj != serde_json::to_string(&recipe.build()).unwrap() {
         return Err(Fail::new("scheme-json-differs", sj, case.clone()));
     }
     // parse
@@ -710,9 +710,86 @@ fn panic_case(_ch: &mut Choices<'_>, st: &mut Stats) -> CaseResult {
     }
 }
 
+/// The same sequence of field registrations through the C builder and through the
+/// Rust builder: same accept / refuse answers, same error text, same scheme.
+const BUILDER_NAMES: &[&[u8]] = &[
+    b"x", b"x\0", b"x\0\0", b"\0x", b"x ", b" x", b"X", b"x.y", b"x.y\0", b"", b"\0", b"\xc3\xa9", b"\xc3\xa9\0", b"x\n", b"x\xff", b"\xff",
+    b"a_rather_long_field_name.with.several.segments.and_more_than_sixty_four_bytes_in_total",
+    b"a_rather_long_field_name.with.several.segments.and_more_than_sixty_four_bytes_in_total\0",
+];
+
+fn builder_case(ch: &mut Choices<'_>, st: &mut Stats) -> CaseResult {
+    let n = ch.range(1, 7);
+    let mut cb = ffi::wirefilter_create_scheme_builder();
+    let mut rb = wirefilter::SchemeBuilder::new();
+    let mut log: Vec<Value> = Vec::new();
+    let types = [MType::Int, MType::Bytes, MType::Bool, MType::Ip, MType::array(MType::Int), MType::map(MType::Bytes)];
+    for _ in 0..n {
+        let name: &[u8] = *ch.pick(BUILDER_NAMES);
+        let t = ch.pick(&types).clone();
+        log.push(json!({"add_type_field": show_bytes(name), "type": t.show()}));
+        let case = json!({"registrations_in_order": log});
+        st.eval();
+        ffi::wirefilter_clear_last_error();
+        let c_ok = ffi::wirefilter_add_type_field_to_scheme(&mut cb, name.as_ptr().cast(), name.len(), ctype(&t));
+        let rust: Result<(), String> = match std::str::from_utf8(name) {
+            Err(e) => Err(e.to_string()),
+            Ok(s) => rb.add_field(s, t.to_engine()).map_err(|e| e.to_string()),
+        };
+        match (&rust, c_ok) {
+            (Ok(()), true) => {}
+            (Err(e), false) => {
+                let got = check_last_error("wirefilter_add_type_field_to_scheme", &case)?;
+                if got != substitute_nul(e) {
+                    return Err(Fail::new(
+                        "builder-error-text-differs",
+                        format!("C last error {:?}, Rust error {:?}", String::from_utf8_lossy(&got), e),
+                        case,
+                    ));
+                }
+                st.class("builder:refused-on-both-sides");
+            }
+            (r, c) => {
+                return Err(Fail::new(
+                    "builder-outcome-differs",
+                    format!("wirefilter_add_type_field_to_scheme returned {c}, the Rust builder {r:?}"),
+                    case,
+                ));
+            }
+        }
+    }
+    let case = json!({"registrations_in_order": log});
+    let cs = ffi::wirefilter_build_scheme(cb);
+    let rs = rb.build();
+    let cj = take_string(ffi::wirefilter_serialize_scheme_to_json(&cs)).map_err(|e| Fail::new("c-api-serialize-scheme", e, case.clone()))?;
+    let rj = serde_json::to_string(&rs).unwrap();
+    if cj != rj {
+        return Err(Fail::new("builder-scheme-differs", format!("scheme built through the C API: {cj}\nscheme built through the Rust API: {rj}"), case));
+    }
+    let crs: &wirefilter::Scheme = &cs;
+    for name in BUILDER_NAMES {
+        if let Ok(sname) = std::str::from_utf8(name) {
+            let (a, b) = (crs.get_field(sname).map(|f| f.index()).ok(), rs.get_field(sname).map(|f| f.index()).ok());
+            if a != b {
+                return Err(Fail::new("builder-lookup-differs", format!("get_field({sname:?}): C-built scheme {a:?}, Rust-built scheme {b:?}"), case));
+            }
+        }
+    }
+    if rs.field_count() >= 2 {
+        st.nontrivial(&cj);
+    }
+    if log.iter().any(|l| l["add_type_field"].as_str().map(|s| s.contains("\\x00") || s.contains("\\0")).unwrap_or(false)) {
+        st.class("builder:name-with-nul");
+    }
+    st.sample("builder", || json!({"registrations_in_order": log, "scheme_json": cj}));
+    ffi::wirefilter_free_scheme(cs);
+    Ok(())
+}
+
 pub fn subs() -> Vec<Sub> {
     vec![
         Sub { name: "diff", f: Box::new(diff_case) },
+        Sub { name: "builder", f: Box::new(builder_case) },
         Sub { name: "errors", f: Box::new(errors_case) },
         Sub { name: "threads", f: Box::new(threads_case) },
         Sub { name: "panic", f: Box::new(panic_case) },
@@ -731,6 +808,7 @@ pub fn run(run: &Run) {
     run.fixed("panic", &[vec![0]], get("panic"));
     let n = run.tier.pick(60_000, 2_000_000);
     run.random("diff", n, 300, get("diff"));
+    run.random("builder", n, 40, get("builder"));
     run.random("errors", n, 60, get("errors"));
     run.random("threads", n / 20, 40, get("threads"));
 }
